@@ -157,6 +157,15 @@ def d1_layout(ctx, fits, rule='C07-D1', rule2='C07-D2', rule5='C07-D5'):
     v = dv[0].value
     neg = isinstance(v, ast.UnaryOp) and isinstance(v.op, ast.USub)
     inner = v.operand if neg else v
+    # a truncating solver is not the inverse: pinv / pinvh / lstsq drop every singular value below rcond * largest, so for a regular
+    # but badly scaled Hessian (a prior or data point weighted ~1e15 above the flattest direction) whole parameter directions of
+    # H^-1 B are lost, while LU with pivoting (solve) or inv keeps them.  The GLS solution needs (A^T W A)^-1.
+    trunc = [c for c in walk(inner) if isinstance(c, ast.Call) and (fits.dotted(c.func) or unparse(c.func)).split('.')[-1] in ('pinv', 'pinvh', 'pinv2', 'lstsq')]
+    if trunc:
+        ctx.violated(rule2, 'fits.py:least_squares#ift-solver', 'deriv_y = %s applies a truncating pseudo-inverse (%s) where the inverse of the Hessian is required: singular values below the '
+                     'cut-off are dropped, so for a regular badly scaled Hessian (e.g. a parameter pinned by a very tight prior) the fluctuations and covariance gradients of the other '
+                     'parameters are not those of the GLS solution' % (unparse(v)[:90], unparse(trunc[0].func)), fits.loc(dv[0]))
+        return
     if not (isinstance(inner, ast.Call) and (fits.dotted(inner.func) or '').endswith('linalg.solve') and len(inner.args) == 2):
         ctx.unrec(rule, key, 'deriv_y is not (-)solve(H, B): %s' % unparse(v))
         return
@@ -659,6 +668,7 @@ SELFTEST = [
     ('corr-fit-x-from-count', 'pyerrors/correlators.py', "        xs = np.array([x for x in range(fitrange[0], fitrange[1] + 1) if self.content[x] is not None])", "        xs = np.arange(fitrange[0], fitrange[1] + 1)", 'C07-D7'),
     ('block-rows-all', 'pyerrors/fits.py', "deriv_y = -scipy.linalg.solve(hess, jac_jac_y[:n_parms, n_parms:])", "deriv_y = -scipy.linalg.solve(hess, jac_jac_y[:n_parms, :-n_parms])", 'C07-D1'),
     ('block-short', 'pyerrors/fits.py', "deriv_y = -scipy.linalg.solve(hess, jac_jac_y[:n_parms, n_parms:])", "deriv_y = -scipy.linalg.solve(hess, jac_jac_y[:n_parms, n_parms + 1:])", 'C07-D1'),
+    ('ift-pinv', 'pyerrors/fits.py', "deriv_y = -scipy.linalg.solve(hess, jac_jac_y[:n_parms, n_parms:])", "deriv_y = -np.linalg.pinv(hess, hermitian=True) @ jac_jac_y[:n_parms, n_parms:]", 'C07-D2'),
     ('ift-sign', 'pyerrors/fits.py', "deriv_y = -scipy.linalg.solve(hess, jac_jac_y[:n_parms, n_parms:])", "deriv_y = scipy.linalg.solve(hess, jac_jac_y[:n_parms, n_parms:])", 'C07-D2'),
     ('concat-order', 'pyerrors/fits.py', "hessian(chisqfunc_compact)(np.concatenate((fitp, y_f, p_f)))", "hessian(chisqfunc_compact)(np.concatenate((fitp, p_f, y_f)))", 'C07-D1'),
     ('compact-slices', 'pyerrors/fits.py', "general_chisqfunc(d[:n_parms], d[n_parms: n_parms + len_y], d[n_parms + len_y:])", "general_chisqfunc(d[:n_parms], d[n_parms: n_parms + len_y], d[n_parms + len_y - 1:])", 'C07-D1'),
